@@ -402,6 +402,7 @@ func (t *Tombstoner) commit() error {
 	if err := file.SyncDir(filepath.Dir(t.tombstonePath())); err != nil {
 		return err
 	}
+	verifPoint("tombstone.committed", filepath.Dir(t.tombstonePath()))
 
 	t.pendingFile = nil
 	t.bw = nil
